@@ -47,6 +47,10 @@ CLAIMS = {
   "Deductive: (a) the real bodies of SymbolicMaths.never_equal and equal are verified against 'never equal only for an exact difference that is one non-zero integer constant' / 'equal only for a zero difference' (sympy class hierarchy declared, _subtract an assumed function); (b) one z3 obligation per operator and intrinsic of the translation tables the real SymPyWriter uses (executed closed code): for all integers the sympy reading of the written text equals the Fortran integer value. +,-,*,unary +/-, MIN, MAX are discharged; '/', negative '**' and MOD fail with counter-models and are recorded known findings, each replayed through the real SymbolicMaths.equal.",
   "Assumed external contracts: sympy parse/simplify semantics; Fortran 2008 integer arithmetic as transcribed. NOT under contract: SymPyWriter name handling and type map (seeded change C17b missed), solve_equal_for, expand, sympy reader.",
   TECH + "; z3 integer/real arithmetic obligations over executed translation tables"),
+ "C08": ("proof",
+  "Deductive: DependencyTools._is_scalar_parallelisable over the abstract access view (True only for read-only scalars or scalars whose first access is an unconditional write, outside two recorded known classes); _independent_0_var (True exactly on a never_equal answer) together with the VCs of SymbolicMaths.never_equal; _get_dependency_distance: the helper-name loop terminates (variant under a ghost bound on the finite type map), the helper unknown's name is not a key of the type map, only an Integer solution becomes a distance. One defect repaired (fix: 425a843, non-terminating loop), two known findings (conditional first write, call argument first).",
+  "Assumed: access view (C11 link), sympy objects and calls as uninterpreted functions. NOT under contract: _partition, _is_loop_carried_dependency, _array_access_parallelisable, can_loop_be_parallelised (the array rule and its quantification over iteration pairs); C17's translation findings ('/', MOD, '**') are inherited.",
+  TECH + "; loop variant with a ghost bound; call-site obligation on the helper symbol"),
 }
 
 NA = {
